@@ -512,6 +512,7 @@ class StmtsMixin:
                 self.run_hint(st, SpecEnv(st, {}, st.entry), m.group(2), cl)
 
     def havoc_loop_state(self, h, vs, fs, calls, spec, s):
+        self.bump_top(h)              # iterations may have allocated
         for oid in vs:
             if oid in h.env and isinstance(oid, tuple) and isinstance(h.env[oid], z3.ExprRef) and z3.is_array(h.env[oid]):
                 h.env[oid] = fresh('visited', h.env[oid].sort())
@@ -529,6 +530,7 @@ class StmtsMixin:
                 if isinstance(old, StrV) and not self.slice_rebased(s, oid):
                     nv.arr = old.arr
                 for w in self.lay.wf(nv, tid): h.assume(w)
+                self.bound_value(h, nv, tid)
                 h.env[oid] = nv
         for (t, fname) in fs:
             if t == 'elems':
@@ -541,6 +543,7 @@ class StmtsMixin:
                 if f['n'] == fname:
                     for i, srt in enumerate(self.lay.sorts(f['t'])):
                         h.heap[(tn, fname, i)] = fresh('hvH_%s' % fname, z3.ArraySort(I, srt))
+                        h.meta['afacts'] = tuple(h.meta.get('afacts', ())) + tuple(self.bound_heap_comp(h, h.heap[(tn, fname, i)], tn, fname, i))
         for c in calls:
             if c[0] == 'elemwrite':
                 try:
